@@ -37,7 +37,8 @@ pub fn unhex(s: &str) -> Vec<u8> {
 
 #[derive(Clone, Debug, PartialEq, Eq)]
 pub enum FileMode {
-    /// content served through a memfd
+    /// a regular file with the planned content, materialised at the planned path for the run; `open` of it
+    /// is intercepted so that faults can be layered over its descriptor (historical name: it used to be a memfd)
     Memfd,
     /// the path does not exist (open fails with ENOENT)
     Absent,
@@ -150,16 +151,11 @@ impl Case {
         }
         p.push_str(&format!("stdin {}\n", hex(&self.stdin)));
         match self.file_mode {
-            FileMode::Memfd => {
+            FileMode::Memfd | FileMode::Absent | FileMode::RealDir => {
+                // the planned path is a real path (regular file / nothing / a directory): open passes through
+                // to the kernel and the descriptor is tracked for the read and stat scripts
                 p.push_str(&format!("path {}\n", hex(self.path.as_bytes())));
-                p.push_str(&format!("file {}\n", hex(&self.file)));
-            }
-            FileMode::Absent => {
-                p.push_str(&format!("path {}\n", hex(self.path.as_bytes())));
-            }
-            FileMode::RealDir => {
-                p.push_str(&format!("path {}\n", hex(self.path.as_bytes())));
-                p.push_str(&format!("real {}\n", hex(b"/")));
+                p.push_str(&format!("real {}\n", hex(self.path.as_bytes())));
             }
             FileMode::None | FileMode::RealFs => {}
         }
@@ -213,6 +209,44 @@ pub struct Binaries {
     pub grex: String,
     pub probe: String,
     pub shim: String,
+    /// directory under which each worker slot materialises its planned file
+    pub scratch: String,
+}
+
+/// Placeholder for the planned path in generated cases and replay files; `run_case` substitutes the real
+/// per-slot path (fixed width, so that stream lengths do not depend on the slot).
+pub const PLANNED_PATH: &str = "/nonexistent-simenv/inputs/cases.txt";
+
+/// Puts the planned file system object in place and returns the case with the real path substituted.
+pub fn materialise(case: &Case, bins: &Binaries, slot: usize) -> Result<Case, String> {
+    let dir = format!("{}/w{:02}", bins.scratch, slot);
+    let real = format!("{}/cases.txt", dir);
+    let _ = std::fs::remove_dir_all(&dir);
+    std::fs::create_dir_all(&dir).map_err(|e| format!("{}: {}", dir, e))?;
+    let mut c = case.clone();
+    let sub = |s: &str| s.replace(PLANNED_PATH, &real);
+    c.argv = c.argv.iter().map(|a| sub(a)).collect();
+    if c.stdin.windows(PLANNED_PATH.len()).any(|w| w == PLANNED_PATH.as_bytes()) {
+        c.stdin = sub(&String::from_utf8_lossy(&c.stdin)).into_bytes();
+    }
+    if c.path == PLANNED_PATH {
+        c.path = real.clone();
+    }
+    match c.file_mode {
+        FileMode::Memfd | FileMode::RealFs => std::fs::write(&c.path, &c.file).map_err(|e| format!("{}: {}", c.path, e))?,
+        FileMode::RealDir => std::fs::create_dir_all(&c.path).map_err(|e| format!("{}: {}", c.path, e))?,
+        FileMode::Absent | FileMode::None => {}
+    }
+    Ok(c)
+}
+
+/// Runs a case in a worker slot; returns what was observed and the materialised case (real path substituted),
+/// which is the one the oracle must be asked about.
+pub fn run_in_slot(case: &Case, bins: &Binaries, timeout_s: u64, slot: usize) -> Result<(Observed, Case), String> {
+    let m = materialise(case, bins, slot)?;
+    let o = run_case(&m, bins, timeout_s)?;
+    let _ = std::fs::remove_dir_all(format!("{}/w{:02}", bins.scratch, slot));
+    Ok((o, m))
 }
 
 pub fn run_case(case: &Case, bins: &Binaries, timeout_s: u64) -> Result<Observed, String> {
